@@ -147,6 +147,19 @@ def pipeline_runs(rep, binary, prop, aspect, runs=60):
                 scen.append(l)
             else:
                 table[(l["scenario"], l["fl"], l["sent"])] = l
+    # REAL sessions: flights made of the repository's captures (scenarios 4, 5), every position under segment sizes {1, 7, 100, 1460, all}
+    for sc, flights in captured_sessions():
+        dd = vlib.workdir(prop, "pipeline%d" % sc)
+        fp = vlib.os.path.join(dd, "flights.ndjson")
+        vlib.write_ndjson(fp, flights)
+        d, res, lines = vlib.tlc_single(prop, "pipeline%d" % sc, "MC_Pipeline", cfg="MC_Pipeline_cap%d" % sc, workers=1, timeout=900, heap="6g",
+                                        env={"VERIF_FLIGHTS": fp}, out_name="pos.ndjson", d=dd)
+        rep.add_tlc("MC_Pipeline_cap%d" % sc, res)
+        for l in lines:
+            if "flights" in l:
+                scen.append(l)
+            else:
+                table[(l["scenario"], l["fl"], l["sent"])] = l
     sp = vlib.os.path.join(d, "scenarios.ndjson")
     vlib.write_ndjson(sp, scen)
     out = vlib.os.path.join(d, "pipeline.out.ndjson")
@@ -169,6 +182,35 @@ def pipeline_runs(rep, binary, prop, aspect, runs=60):
                           {x: exp[x] for x in keys}, {x: o[x] for x in keys},
                           "end-to-end pipeline, scenario %s, flight %s byte %s: %s = %s, the model says %s" % (o["scenario"], o["fl"], o["sent"], k, o[k], exp[k]), "pipeline")
     rep.cov["traces_validated_against_impl"] += len(nruns)
+
+
+def captured_sessions():
+    """Sessions assembled from the repository's captures: (4) ClientHello / the server's ServerHello..ServerHelloDone flight /
+    ClientKeyExchange + ChangeCipherSpec + encrypted Finished; (5) a ClientHello fragmented over two records (the two assets)
+    answered by a TLS 1.3 ServerHello."""
+    def recs(b):
+        o, r = 0, []
+        while o + 5 <= len(b):
+            n = b[o + 3] * 256 + b[o + 4]
+            r.append({"ct": b[o], "ver": b[o + 1] * 256 + b[o + 2], "data": b[o + 5:o + 5 + n]})
+            o += 5 + n
+        return r
+    caps = [(s, b) for s, b in extract_captures() if len(b) > 9 and b[0] in (20, 21, 22, 23) and b[1] == 3]
+    first = lambda pred: next((b for s, b in caps if pred(s, b)), None)
+    ch = first(lambda s, b: b[0] == 22 and b[5] == 1 and 5 + b[3] * 256 + b[4] == len(b) and len(b) > 100)
+    sf = first(lambda s, b: b[0] == 22 and b[5] == 2 and len(b) > 5 + b[3] * 256 + b[4] + 100)
+    ck = first(lambda s, b: b[0] == 22 and b[5] == 16)
+    f1 = first(lambda s, b: s.endswith("fragmented_1.bin"))
+    f2 = first(lambda s, b: s.endswith("fragmented_2.bin"))
+    sh13 = first(lambda s, b: s.startswith("tls_tls13") and b[0] == 22 and b[5] == 2)
+    out = []
+    if ch and sf and ck:
+        out.append((4, [{"dir": "c", "recs": recs(ch)}, {"dir": "s", "recs": recs(sf)}, {"dir": "c", "recs": recs(ck)}]))
+    if f1 and f2 and sh13:
+        out.append((5, [{"dir": "c", "recs": recs(f1) + recs(f2)}, {"dir": "s", "recs": recs(sh13)}]))
+    if not out:
+        raise vlib.ToolError("no session could be assembled from /repo's captures")
+    return out
 
 
 # ------------------------------------------------------------------ the repository's own test vectors
